@@ -91,6 +91,11 @@ def dec(j):
         return Opaque()
     if t == 'lazy':
         return make_lazy(j['v'])
+    if t == 'deeplist':
+        v = [1]
+        for _ in range(j['v']):
+            v = [v]
+        return v
     raise ValueError('unknown tag %r' % t)
 
 
@@ -173,6 +178,7 @@ POOL_SCALARS = [
 ] + [ERR(c) for c in ERR_CODES]
 
 POOL_CONTAINERS = [
+    L(I(10), I(20), I(30), NONE), L(NONE), L(NONE, NONE), L(L(I(1), NONE), L(NONE, NONE)),
     L(I(1), I(2), I(3)), L(L(I(1), I(2)), L(I(3), I(4))), L(S('a'), S('b')), L(),
     L(NONE, I(1), S('x')), L(I(3), I(1), I(2)), L(F(2.5), I(-1), TRUE, S('7')),
     L(L(I(5), S('b'), NONE), L(I(2), S('a'), F(0.5))),
@@ -186,6 +192,7 @@ POOL_HOSTILE = [
     {'t': 'xlerr', 'v': ''}, L(ERR('#N/A'), I(1)), L(L(L(I(1)))),
     {'t': 'xlerrv', 'v': [L(S('#N/A'))]}, {'t': 'xlerrv', 'v': [{'t': 'dict', 'v': [[S('k'), I(1)]]}]},
     {'t': 'xlerrv', 'v': []}, {'t': 'xlerrv', 'v': [S('#N/A'), S('detail')]}, {'t': 'xlerrv', 'v': [NONE]},
+    {'t': 'deeplist', 'v': 1500}, {'t': 'deeplist', 'v': 60},
 ]
 
 POOL = POOL_SCALARS + POOL_CONTAINERS + POOL_HOSTILE
@@ -210,4 +217,6 @@ def scalar_count(j):
         return 1 + len(j['v'])
     if t in ('str', 'bytes'):
         return 1 + len(j['v']) // 16
+    if t == 'deeplist':
+        return 2 * j['v']
     return 1
